@@ -19,7 +19,7 @@ from props import _dfpart_util as U
 PROP = "C39"
 READY = True
 DRIVER = "dm_dfpart"
-LEAN_MODULES = ["DaskModel.Props.C39", "DaskModel.Props.C39Asof", "DaskModel.Props.C39Align"]
+LEAN_MODULES = ["DaskModel.Props.C39", "DaskModel.Props.C39Asof", "DaskModel.Props.C39Align", "DaskModel.Props.C39Plan"]
 CASE_TIMEOUT_S = 90
 ASSUMPTIONS = ["pandas DataFrame.merge on one pair of partitions is the oracle-checked atom; the Lean `inner/left/leftsemi/"
                "outer/right` specification is diffed against pandas on every merge case (NaN keys match NaN keys)",
@@ -559,10 +559,77 @@ def case_interleave_plan(ctx, inp):
     else:
         ctx.branch("interleave_plan-monotonic-divisions-stacked")
 
+
+def case_merge_plan(ctx, inp):
+    """Merge._lower: the plan the real expression is lowered to vs Lean `MergePlan.lower` (no compute)"""
+    import pandas as pd
+    dd = U.dd()
+    n = 48
+    lk, rk = list(range(n)), [(i * 7) % n for i in range(n)]
+    left = pd.DataFrame({"k": lk, "lv": range(n)})
+    right = pd.DataFrame({"k": rk, "rv": range(n)})
+    how, kind = inp["how"], inp["kind"]
+    kw = {"how": how}
+    if inp.get("broadcast") is not None:
+        kw["broadcast"] = inp["broadcast"]
+    if inp.get("npartitions"):
+        kw["npartitions"] = inp["npartitions"]
+    try:
+        if kind == "index":           # both sides joined on their index; known divisions unless cleared
+            dl = dd.from_pandas(left.set_index("k"), npartitions=inp["nl"])
+            dr = dd.from_pandas(right.set_index("k").sort_index(), npartitions=inp["nr"])
+            if inp.get("unknown"):
+                dl, dr = dl.clear_divisions(), dr.clear_divisions()
+            m = dl.merge(dr, left_index=True, right_index=True, **kw)
+        elif kind == "left_index":
+            m = dd.from_pandas(left.set_index("k"), npartitions=inp["nl"], sort=False).merge(
+                dd.from_pandas(right, npartitions=inp["nr"]), left_index=True, right_on="k", **kw)
+        elif kind == "chain":         # the left input is itself a hash join on the key: already partitioned
+            first = dd.from_pandas(left, npartitions=inp["nl"]).merge(
+                dd.from_pandas(right.rename(columns={"rv": "r0"}), npartitions=inp["nl"]), on="k", how="left", broadcast=False)
+            m = first.merge(dd.from_pandas(right, npartitions=inp["nr"]), on="k", **kw)
+        else:
+            m = dd.from_pandas(left, npartitions=inp["nl"]).merge(dd.from_pandas(right, npartitions=inp["nr"]), on="k", **kw)
+    except NotImplementedError:
+        ctx.branch("merge_plan-refused")
+        return
+    from dask.dataframe.dask_expr._merge import Merge
+    e = next(x for x in m.expr.walk() if isinstance(x, Merge))
+    low = e._lower()
+    tl, tr = type(low.left).__name__, type(low.right).__name__
+    if type(low).__name__ == "BroadcastJoin":
+        left_side = e.broadcast_side == "left"
+        small, other = (low.left, low.right) if left_side else (low.right, low.left)
+        real = ["broadcast", left_side, type(small).__name__ == "RearrangeByColumn",
+                other.operand("new_partitions") if type(other).__name__ == "Repartition" else None]
+    elif type(low).__name__ == "BlockwiseMerge":
+        if tl == "Repartition" and tr == "Repartition" and low.left.operand("new_divisions") is not None:
+            real = ["aligned"]
+        else:
+            real = ["blockwise", tl == "RearrangeByColumn", tr == "RearrangeByColumn"]
+            if real[1] or real[2]:
+                real.append((low.left if real[1] else low.right).npartitions)
+    else:
+        real = [type(low).__name__]
+    model = ctx.lean(Sym("merge-plan"), e.left.npartitions, e.right.npartitions, Sym(how),
+                     Sym("none") if inp.get("broadcast") is None else bool(inp["broadcast"]),
+                     bool(e.merge_indexed_left), bool(e.merge_indexed_right), bool(e.left_index), bool(e.right_index),
+                     Sym("none") if not inp.get("npartitions") else inp["npartitions"],
+                     bool(e._on_condition_already_partitioned(e.left, e.left_on)),
+                     bool(e._on_condition_already_partitioned(e.right, e.right_on)))
+    if model[0] == "single":
+        want = ["blockwise", False, False]
+    elif model[0] == "hash":
+        want = ["blockwise", model[1], model[2]] + ([model[3]] if model[1] or model[2] else [])
+    else:
+        want = list(model)
+    ctx.eq("Merge._lower: plan (Lean MergePlan.lower vs the lowered expression)", want, real)
+    ctx.branch("merge_plan-%s-%s-%s" % (model[0], how, kind))
+
 CASES = {"merge": case_merge, "join": case_join, "concat": case_concat, "asof": case_asof, "chain": case_chain,
          "index_bcast": case_index_bcast, "pair_partitions": case_pair_partitions, "asof_spec": case_asof_spec,
          "asof_pads": case_asof_pads, "asof_plan": case_asof_plan,
-         "index_join_plan": case_index_join_plan, "interleave_plan": case_interleave_plan}
+         "index_join_plan": case_index_join_plan, "interleave_plan": case_interleave_plan, "merge_plan": case_merge_plan}
 
 
 def _keys(rng, n, hi, na):
@@ -743,6 +810,25 @@ def _gen_align(ctx):
         yield "interleave_plan", {"frames": frames}
 
 
+def _gen_merge_plan(ctx):
+    rng = ctx.rng
+    for _ in range(ctx.n(150, 1500)):
+        small = rng.choice([1, 1, 2, 2, 3, 4])
+        big = rng.choice([1, 2, 4, 5, 15, 16, 17, 24, 40])
+        nl, nr = (small, big) if rng.random() < 0.5 else (big, small)
+        yield "merge_plan", {"nl": nl, "nr": nr, "how": rng.choice(["inner", "inner", "left", "right", "outer", "leftsemi"]),
+                             "broadcast": rng.choice([None, None, True, False]), "npartitions": rng.choice([None, None, None, 2, 7]),
+                             "kind": rng.choice(["columns", "columns", "columns", "index", "left_index", "chain"]),
+                             "unknown": rng.random() < 0.3}
+    if ctx.thorough():
+        for nl in (1, 2, 3, 4, 5, 16, 17, 40):
+            for nr in (1, 2, 3, 4, 5, 16, 17, 40):
+                for how in ("inner", "left", "right", "outer", "leftsemi"):
+                    for b in (None, True, False):
+                        for kind in ("columns", "left_index"):
+                            yield "merge_plan", {"nl": nl, "nr": nr, "how": how, "broadcast": b, "npartitions": None, "kind": kind}
+
+
 def _interleave(streams):
     """round-robin over the generator streams, so that a deadline cuts all of them proportionally"""
     its = [iter(x) for x in streams]
@@ -758,4 +844,5 @@ def _interleave(streams):
 
 
 def generate(ctx):
-    yield from _interleave([_gen_pairs(ctx), _gen_api(ctx), _gen_asof_spec(ctx), _gen_asof_plan(ctx), _gen_align(ctx), _gen_asof_pads(ctx)])
+    yield from _interleave([_gen_pairs(ctx), _gen_api(ctx), _gen_asof_spec(ctx), _gen_asof_plan(ctx), _gen_align(ctx), _gen_merge_plan(ctx),
+                            _gen_asof_pads(ctx)])
